@@ -71,6 +71,7 @@ class Sim {
   int lock_depth = 0;
   std::function<void(bool lock)> preempt;   // called at COTmrLock entry (true) and COTmrUnlock exit (false)
   std::function<void(uint8_t)> hb_event_hook;        // called from inside CONmtHbConsEvent (an application reacting to a lost node)
+  std::function<void(int)> mode_change_hook;        // called from inside CONmtModeChange (the application may use the stack there)
   std::function<int16_t(CO_IF_FRM *)> pdo_receive;  // COPdoReceive override (return value)
   std::function<int16_t(CO_PARA *)> para_default;
 
